@@ -185,7 +185,7 @@ def canonical_embed(prog, r, args):
             return ("p%d" % expr[1], [])
         h = "k%d_%s" % (i, slot)
         names1.append(h)
-        res1[h] = kvalue.Const(expr[1], expr[2]) if expr[0] == "const" else (None if expr[0] == "nonec" else bool(expr[1]))
+        res1[h] = kvalue.Const(expr[1], expr[2]) if expr[0] == "const" else (None if expr[0] == "nonec" else (expr[1] if expr[0] == "strc" else bool(expr[1])))
         if impl_uxn is not None:
             rho[h] = impl_uxn.id
         return (h, [])
@@ -376,6 +376,42 @@ def run_ids(pid, tier, seed, res, only=None):
     res.engine_info["kids"] = dict(programs=len(where), build_errors=nb)
 
 
+def _fun(fid, kind="plain", **kw):
+    f = dict(fid=fid, kind=kind, truth=True, priority=0, is_sequential=False, resource="thread")
+    f.update(kw)
+    return f
+
+
+def _sub(name, params, nfun_base, stmts, ret, **kw):
+    d = dict(name=name, params=params, funs=[_fun(nfun_base), _fun(nfun_base + 1)], stmts=stmts, ret=ret, subs=[], fails=[], maxc=2, is_async=False)
+    d.update(kw)
+    return d
+
+
+def _P(n, d):
+    return dict(name=n, default=d)
+
+
+# fixed programs (run before the random ones): nested DAGs whose defaulted parameters are bound positionally
+CORPUS = [
+    # inner(x, y=10, z=100) called as inner(a): y and z keep THEIR defaults
+    dict(name="p", params=[_P("a0", None)], funs=[_fun(0), _fun(1)],
+         stmts=[dict(op="sub", d=0, args=[["param", 0]], active=None), dict(op="call", f=0, args=[["var", 0, [0]], ["var", 0, [1]]], kwargs={}, active=None)],
+         ret=dict(shape="tuple", items=[["var", 0, [0]], ["var", 0, [1]], ["var", 1, []]]), fails=[], maxc=2, is_async=False,
+         subs=[_sub("p_s0", [_P("a0", None), _P("d0", [10, True]), _P("d1", [100, False])], 10,
+                    [dict(op="call", f=0, args=[["param", 0], ["param", 1], ["param", 2]], kwargs={}, active=None), dict(op="call", f=1, args=[["param", 2], ["param", 1]], kwargs={}, active=None)],
+                    dict(shape="tuple", items=[["var", 0, []], ["var", 1, []]]))]),
+    # inner(x, w, y=1, z=2, t=3) called with three arguments: z and t keep theirs; at depth 2 through a middle DAG
+    dict(name="p", params=[_P("a0", None), _P("d0", [7, True])], funs=[_fun(0), _fun(1)],
+         stmts=[dict(op="call", f=0, args=[["param", 0]], kwargs={}, active=None), dict(op="sub", d=0, args=[["var", 0, []], ["param", 1], ["const", 5, True]], active=None)],
+         ret=dict(shape="list", items=[["var", 1, [0]], ["var", 1, [1]]]), fails=[], maxc=3, is_async=True,
+         subs=[_sub("p_s0", [_P("a0", None), _P("a1", None), _P("d0", [1, True]), _P("d1", [2, False]), _P("d2", [3, True])], 10,
+                    [dict(op="call", f=0, args=[["param", 0], ["param", 1], ["param", 2], ["param", 3], ["param", 4]], kwargs={}, active=None),
+                     dict(op="call", f=1, args=[["param", 4], ["param", 3]], kwargs={"kw0": ["param", 2]}, active=None)],
+                    dict(shape="tuple", items=[["var", 0, []], ["var", 1, []]]), qualname="mk0.<locals>.p_s0")]),
+]
+
+
 def run(pid, tier, seed, res, p_sub=None, p_flag=None, only=None):
     import os
     rng = random.Random(seed * 15485863 + 3)
@@ -389,6 +425,7 @@ def run(pid, tier, seed, res, p_sub=None, p_flag=None, only=None):
     corpus = sorted(__import__("glob").glob(os.path.join(coqrun.VERIF, "corpus", "value", "*.json")))
     for f in corpus:
         progs.append(json.load(open(f))["prog"])
+    progs.extend(json.loads(json.dumps(c_)) for c_ in CORPUS)
     for _ in range(n):
         progs.append(kvalue.gen_prog(rng, max_stmts=8 if tier == "quick" else 14, p_sub=focus["p_sub"], p_flag=focus["p_flag"]))
     fixed_args = None
